@@ -159,7 +159,7 @@ def record(case, res, ref):
     cev = [e for e in evs if e['pid'] in child_pids]
     if any(e['e'] == 'Spawn' and e.get('s') == 'fail' for e in evs):
         fate = 'spawnfail'
-    elif any(e['e'] == 'ReportCut' for e in cev):
+    elif ''.join(e.get('lost', '?') for e in cev if e['e'] == 'ReportCut') not in ('', '\n'):
         fate = 'cut'
     elif any(e['e'] == 'Crash' for e in cev) or not any(e['e'] == 'ProcExit' for e in cev):
         fate = 'died'
